@@ -19,6 +19,7 @@ Definition documented : facts := {|
   f_mandatory := ["nullable"];
   f_types := [{| td_name := "binary"; td_incl := ["bytes"; "bytearray"]; td_excl := [] |}; {| td_name := "boolean"; td_incl := ["bool"]; td_excl := [] |}; {| td_name := "container"; td_incl := ["Container"]; td_excl := ["str"] |}; {| td_name := "date"; td_incl := ["date"]; td_excl := [] |}; {| td_name := "datetime"; td_incl := ["datetime"]; td_excl := [] |}; {| td_name := "dict"; td_incl := ["Mapping"]; td_excl := [] |}; {| td_name := "float"; td_incl := ["float"; "int"]; td_excl := [] |}; {| td_name := "integer"; td_incl := ["int"]; td_excl := [] |}; {| td_name := "list"; td_incl := ["Sequence"]; td_excl := ["str"] |}; {| td_name := "number"; td_incl := ["int"; "float"]; td_excl := ["bool"] |}; {| td_name := "set"; td_incl := ["set"]; td_excl := [] |}; {| td_name := "string"; td_incl := ["str"]; td_excl := [] |}];
   f_queue_excluded := ["allow_unknown"; "require_all"; "meta"; "required"];
+  f_stops := [("_validate_dependencies", "return True if (self.document_error_tree.fetch_node_from(self.schema_path + (field, 'dependencies')) is not None)")];
   f_normalization_rules := ["coerce"; "default"; "default_setter"; "purge_unknown"; "rename"; "rename_handler"];
   f_nullable_drops := ["allof"; "allowed"; "anyof"; "empty"; "forbidden"; "items"; "keysrules"; "min"; "max"; "minlength"; "maxlength"; "noneof"; "oneof"; "regex"; "schema"; "type"; "valuesrules"];
   f_empty_drops := ["allowed"; "forbidden"; "items"; "minlength"; "maxlength"; "regex"; "check_with"];
